@@ -272,7 +272,7 @@ func curvedShapes() [][]float64 {
 	}
 	out = append(out,
 		// lens
-		arc(arc([]float64{oracle.CmdMove, 0, 0, oracle.CmdMove}, 3, 3, 0, false, true, 4, 0), 3, 3, 0, false, true, 0, 0),
+		append(arc(arc([]float64{oracle.CmdMove, 0, 0, oracle.CmdMove}, 3, 3, 0, false, true, 4, 0), 3, 3, 0, false, true, 0, 0), oracle.CmdClose, 0, 0, oracle.CmdClose),
 		// quadratic and cubic blobs
 		[]float64{oracle.CmdMove, 0, 0, oracle.CmdMove, oracle.CmdQuad, 3, 5, 6, 0, oracle.CmdQuad, oracle.CmdQuad, 3, -2, 0, 0, oracle.CmdQuad, oracle.CmdClose, 0, 0, oracle.CmdClose},
 		[]float64{oracle.CmdMove, 1, 1, oracle.CmdMove, oracle.CmdCube, 1, 4, 5, 4, 5, 1, oracle.CmdCube, oracle.CmdCube, 4, -1, 2, -1, 1, 1, oracle.CmdCube, oracle.CmdClose, 1, 1, oracle.CmdClose},
